@@ -26,17 +26,17 @@ def top_statements(treeline, text):
     return out, f.get("errors", "")
 
 
-def block_statements(treeline, text, ctxname):
-    """statements inside the innermost body block of the wrapping context"""
+def block_statements(treeline, text, ctxname, depth=0):
+    """statements inside the innermost body block of the wrapping context (`depth` extra `if (c) {` levels around it)"""
     f = PL.fields(treeline)
     t = S.parse(f["tree"])
     b = text.encode("utf-8")
     blocks = S.find_all(t, "BLOCK_EXPR")
-    if not blocks:
+    if len(blocks) <= depth:
         return None, f.get("errors", "")
     # the body block of the wrapper is the LAST outermost block for else/case/default, else the first
     outer = [x for x in blocks]
-    blk = outer[0]
+    blk = outer[depth]          # pre-order: each extra level contributes exactly one block before the body's
     if ctxname == "else":
         top = [c for c in S.children(S.children(t)[0]) if S.is_node(c) and c[0] == "BLOCK_EXPR"]
         blk = top[-1] if top else blk
@@ -162,7 +162,8 @@ def check(ctx):
                  "gate g2 q { }", "def f2() { }", "let b = q ++ r;", "3ns;", "2im;", "true;", "x += 1;", "x[0] = 1;",
                  "c = measure q;", "creg c[2];", "qreg q[2];", "const int n = 1;", "input int k;", "bit b = \"01\";",
                  "switch (x) { case 1 { } }", "return x;", "ctrl @ x q, r;", "pow(2) @ h q;", "f();", "x = (1);", "(x) = 1;",
-                 "[0:1];", "{1, 2};", "a ++ b;", "box { }", "sizeof(a);", "defcalgrammar \"openpulse\";", "include \"stdgates.inc\";"]
+                 "[0:1];", "{1, 2};", "a ++ b;", "box { }", "sizeof(a);", "defcalgrammar \"openpulse\";", "include \"stdgates.inc\";",
+                 "OPENQASM 3.0;", "OPENQASM 3;", "extern f(int) -> int;", "defcal g q { }", "cal { }"]
     extra += first_tok
     cand = sorted({s for v in pool.values() for s in sorted(v)[:40]} | set(extra))
     # statements that parse alone, error-free, as exactly one statement
@@ -195,6 +196,12 @@ def check(ctx):
     for sq in seqs:
         sep = rnd.choice(["", " ", "\n", " /*c*/ "])
         cname, pre, post = rnd.choice(CONTEXTS) if rnd.random() < 0.5 else CONTEXTS[0]
+        k = 0
+        if cname in ("if", "while", "for", "gate", "def") and rnd.random() < 0.1:
+            # the same body, k block levels down (nesting is bounded by 200 in this framework, DESIGN §6)
+            k = rnd.choice([2, 10, 63, 64, 65, 66, 100, 150])
+            pre, post = "if (c) { " * k + pre, post + " }" * k
+            cname = f"{cname}@{k}"
         # statements that run to the end of the line (annotation, pragma) keep their line break
         body = sep.join((x.rstrip("\n") + "\n") if ("@" in x or "pragma" in x or "//" in x) else x for x in sq)
         cases.append((sq, cname, pre + " " + body + " " + post if cname != "file" else body))
@@ -219,7 +226,8 @@ def check(ctx):
         if cname == "file":
             sts, errs = top_statements(t, text)
         else:
-            sts, errs = block_statements(t, text, cname)
+            base, _, kk = cname.partition("@")
+            sts, errs = block_statements(t, text, base, int(kk or 0))
         want = [x.strip() for x in sq]
         got = [x[1].strip() for x in (sts or [])]
         wantk = [kind_of.get(x) for x in sq]
